@@ -22,7 +22,7 @@ def register_send(S):
     MSG = "mkbytes(message(msg, seq, args))"
     TRIPLE = "mktuple(cons(msg, cons(seq, cons(args, nil()))))"
     WHY = {"TypeError": "not plain(%s)" % TRIPLE, "ValueError": "not sized(%s)" % TRIPLE,
-           "struct.error": "not sized(%s) or not fits(enc(%s))" % (TRIPLE, TRIPLE)}
+           "struct.error": "not sized(%s) or not fits_sent(enc(%s), self._channel.compress)" % (TRIPLE, TRIPLE)}
     ENC_RAISES = {n: {"only_when": WHY[n],
                       # an encoding failure happens before anything is queued, locked or written
                       "state": ["self._send_queue.items == old(self._send_queue.items)",
@@ -76,10 +76,10 @@ def register_send(S):
                                                  SOCK + ".shut_attempted", SOCK + ".closed", SOCK + ".failed"]}),
                                 modifies=["self._send_queue", "self._sendlock.held", SOCK + ".outbuf"],
                                 calls={"send": {"interference": {
-                                    "vlist": "self._send_queue", "ghost": "A", "assume": ["all_fit(extra)"],
+                                    "vlist": "self._send_queue", "ghost": "A", "assume": ["all_fit(extra, self._channel.compress)"],
                                     "hints": ["frames_app(Q_before, extra, self._channel.compress)",
                                               "frames_app(A_before, extra, self._channel.compress)",
-                                              "all_fit_app(Q_before, extra)"]}}},
+                                              "all_fit_app(Q_before, extra, self._channel.compress)"]}}},
                                 loops={0: {
                                     "ghost": {"A": ("vl", "self._send_queue.items", "A")},
                                     "modifies": ["self._send_queue", SOCK + ".outbuf"],
@@ -89,7 +89,7 @@ def register_send(S):
                                         "%s is old(%s)" % (SOCK, SOCK), "not %s.failed" % SOCK,
                                         # our own message may exceed the format's limit (then the first transmission
                                         # fails with struct.error); everything appended by nested sends fits (scope)
-                                        "all_fit(self._send_queue.items) if fits(as_bytes(%s)) else "
+                                        "all_fit(self._send_queue.items, self._channel.compress) if fits_sent(as_bytes(%s), self._channel.compress) else "
                                         "(self._send_queue.items == cons(%s, nil()) and %s.outbuf == old(%s.outbuf))" % (
                                             MSG, MSG, SOCK, SOCK),
                                         "%s.outbuf + frames(self._send_queue.items, self._channel.compress) == "
